@@ -14,7 +14,7 @@ from vf.quiet import quiet
 def c04_case(draw):
     kind = draw(st.sampled_from(['general', 'general', 'general', 'saa', 'single']))
     if kind == 'general':
-        c = draw(D.dro_case(polyhedral=True, allow_kl=False))
+        c = draw(D.dro_case(polyhedral=True, allow_kl=False, econs=True, amb2_ok=True, det_obj=True))
     elif kind == 'saa':
         # singleton supports, fixed probabilities, no expectation sets: the sample-average problem
         c = draw(D.dro_case(polyhedral=True, allow_kl=False, allow_lift=False))
@@ -97,16 +97,17 @@ class C04(Prop):
     id = 'C04'
     rule = ('dro models as in C03 restricted to the statement\'s domain: polytope supports (incl. singletons and lifted norm balls), '
             'polyhedral expectation and probability sets, affine / max-of-affine (min-of-affine for maxinf) integrands, event-wise '
-            'static and affinely adaptive decisions. Oracle: independent min-max - inner problem = primal moment LP over support '
+            'static and affinely adaptive decisions, expectation constraints (E(affine), E(maxof/minof)) and robust rows over the default set, '
+            'a second ambiguity set (forall) or a plain support (forall(<constraints>)), min/max of a deterministic expression. Oracle: independent min-max - inner problem = primal moment LP over support '
             'vertices (exact for convex piecewise-affine integrands), outer problem = cutting planes over the decisions with '
-            'scipy HiGHS; compared with model.get() in both directions. Two special families with their own direct oracles: '
+            'scipy HiGHS (objective cuts and one cut per violated expectation constraint at its own worst distribution); compared with model.get() in both directions. Two special families with their own direct oracles: '
             'singleton supports + fixed probabilities vs the sample-average LP; one scenario without expectation sets vs the same '
             'model built with the ro front end. Non-trivial = worst-case value differs from the centre-distribution value by '
             '> 1e-4 (general) / more than one scenario or piece (saa); distinct by IR hash.')
     assumptions = ['tolerance 1e-6(1+|ref|)', 'cutting planes not converging in 60 rounds / artificial bounds on rule coefficients active -> inconclusive']
 
     def examples(self, tier):
-        return 500 if tier == 'quick' else 12000
+        return 1500 if tier == 'quick' else 40000
 
     def time_budget(self, tier):
         return 170 if tier == 'quick' else 1700
@@ -121,6 +122,15 @@ class C04(Prop):
             labels.append('affine_adapt')
         if case['nu']:
             labels.append('lifted')
+        if case.get('amb2'):
+            labels.append('amb2')
+        for r in case['cons']:
+            if r.get('E'):
+                labels.append('Erow:pw' if r.get('alt') else 'Erow:affine')
+            if r.get('amb'):
+                labels.append('forall_amb2')
+            if r.get('fsupp'):
+                labels.append('forall_support')
         m, h = D.build(case)
         val = D.solve(m, None)
         ref, info = D.reference_optimum(case)
@@ -135,7 +145,7 @@ class C04(Prop):
             return Outcome.inconclusive('solver_status', labels)
         tol = 1e-6 * (1 + abs(ref))
         if abs(val - ref) > tol:
-            better = (val < ref) if case['obj']['kind'] == 'minsup' else (val > ref)
+            better = (val < ref) if case['obj']['kind'] in ('minsup', 'min') else (val > ref)
             tag = 'unsafe' if better else 'conservative'
             return Outcome.fail('%s:%s:%s' % (tag, case['prob']['t'], 'exps' if case['exps'] else 'noexp'),
                                 'model.get()=%.9g but the inf-sup optimum is %.9g (%s by %.3g)' % (val, ref, tag, abs(val - ref)), labels)
@@ -162,7 +172,9 @@ class C04(Prop):
                 return Outcome.fail('ro_vs_dro', 'single-scenario dro model gives %.9g, the same model through ro gives %.9g' % (val, rv), labels)
             labels.append('ro_checked')
         x, y0, Y = info['x'], info['y0'], info['Y']
-        nt = abs(ref - D.centre_value(case, x, y0, Y)) > 1e-4
+        if info.get('erow_active'):
+            labels.append('Erow_active')
+        nt = abs(ref - D.centre_value(case, x, y0, Y)) > 1e-4 or bool(info.get('erow_active'))
         return Outcome.ok(nt, labels)
 
 
